@@ -111,6 +111,21 @@ func vhSampleRegisters() [][]byte {
 	put(5, 30, 2, vBlob{n: 60}) // external group with key 4
 	cm, _ := NewMap(storage, addr, &vDigesterBuilder{levels: 4, known: b.known}, vTypeInfo{id: 45})
 	put(6, 40, 1, cm)
+	// array whose inlined children SHARE type information (a type table with
+	// references into it) and a compact-map shape (shared keys): two inlined
+	// plain maps of one type, two composite maps of one shape
+	t, _ := NewArray(storage, addr, vTypeInfo{id: 46})
+	for i := 0; i < 2; i++ {
+		pm, _ := NewMap(storage, addr, NewDefaultDigesterBuilder(), vTypeInfo{id: 47})
+		_, _ = pm.Set(vhCompareBK, vhHipB, vBKey{val: 100}, vU64(uint64(i)))
+		_ = t.Append(pm)
+	}
+	for i := 0; i < 2; i++ {
+		cm, _ := NewMap(storage, addr, NewDefaultDigesterBuilder(), vCompositeTypeInfo{id: 7})
+		_, _ = cm.Set(vhCompareBK, vhHipB, vBKey{val: 100}, vU64(uint64(i)))
+		_, _ = cm.Set(vhCompareBK, vhHipB, vBKey{val: 101}, vU64(uint64(i+5)))
+		_ = t.Append(cm)
+	}
 	var regs [][]byte
 	ids := make([]SlabID, 0, len(storage.Slabs))
 	for id := range storage.Slabs {
